@@ -112,6 +112,7 @@ type executor struct {
 	res       *harnessResult
 	cfg       *config
 	pathNotes []string
+	mapOrders bool // verifMapOrders: explore iteration orders of small maps
 	steps     int64
 	ghost     map[string]value
 	sch       *scheduler
@@ -263,7 +264,11 @@ func appendUniq(l []string, s string) []string {
 
 // choose forks n ways without consulting the solver.
 func (x *executor) choose(label string, n int) int {
-	key := "choose:" + label
+	return x.chooseKey("choose:"+label, n)
+}
+
+// chooseKey: an n-way fork under an arbitrary decision key (only "choose:" keys are handed to native replays).
+func (x *executor) chooseKey(key string, n int) int {
 	if d, ok := x.take(key, n); ok {
 		return d
 	}
